@@ -9,6 +9,7 @@
 #include "llvm/Support/MemoryBuffer.h"
 #include "llvm/Support/SourceMgr.h"
 #include "llvm/Support/raw_ostream.h"
+#include <ctime>
 
 Module *M;
 const DataLayout *DLp;
@@ -157,7 +158,11 @@ static bool applyContract(State &S, const CallBase *CB, const std::vector<Effect
         if (!CFG.traceRegions.empty() && p.k == Val::PTR && p.reg >= 0 && nhi > 0) {
           i128 olo, ohi; offsetBounds(S, p, olo, ohi);
           markRead(S, p.reg, olo, ohi + nhi);
-          traceEvent("{\"k\":\"cread\",\"callee\":\"" + std::string(CB->getCalledFunction() ? CB->getCalledFunction()->getName() : "?") + "\",\"fn\":\"" + std::string(CB->getFunction()->getName()) +
+          // provenance and (for exact spans) a digest of the abstract content that is handed to the primitive
+          uint8_t cprov = 0; uint64_t chash = 1469598103934665603ULL; bool exact = olo == ohi && nlo == nhi && nhi <= 4096;
+          { const Region &RR = S.regions[p.reg]; i128 upto = std::min(nhi, (i128)4096);
+            for (i128 i = 0; i < upto; i++) { ByteCell c = readByte(S, RR, olo + i); cprov |= c.prov; if (exact) for (int w = 0; w < 4; w++) { chash ^= ((const uint64_t *)&c.cs)[w]; chash *= 1099511628211ULL; } } }
+          traceEvent("{\"k\":\"cread\",\"prov\":" + std::to_string((int)cprov) + ",\"content\":" + (exact ? "\"" + std::to_string(chash) + "\"" : std::string("null")) + ",\"callee\":\"" + std::string(CB->getCalledFunction() ? CB->getCalledFunction()->getName() : "?") + "\",\"fn\":\"" + std::string(CB->getFunction()->getName()) +
                          "\",\"line\":" + std::to_string(lineOf(CB)) + ",\"reg\":\"" + S.regions[p.reg].name + "\",\"off\":" + rangeJ(olo, ohi) + ",\"len\":" + rangeJ(nlo, nhi) + ",\"root\":" + std::to_string(lr) + ",\"rk\":" + i128s(lk) + "}");
         }
       }
@@ -1013,6 +1018,7 @@ static bool tabulableFn(const Function *F) {
 }
 
 static uint64_t GlobalSteps = 0;
+time_t CellDeadline = 0;      // wall-clock budget of the current cell (set in main)
 struct Engine {
   std::vector<State> work;
   std::vector<State> done;
@@ -1080,7 +1086,7 @@ struct Engine {
         Instruction *TI = &*S.stack.back().it;
         errs() << "[trace] steps=" << GlobalSteps << " work=" << work.size() << " done=" << paths << " depth=" << S.stack.size() << " at " << TI->getFunction()->getName() << ":" << lineOf(TI) << " pathsteps=" << S.steps << " seen=" << SeenStates.size() << "\n";
       }
-      if (++S.steps > CFG.maxSteps) { alarm(S, "BUDGET", nullptr, "step budget exceeded"); S.aborted = true; S.abortMsg = "budget"; done.push_back(std::move(S)); return; }
+      if (++S.steps > CFG.maxSteps || ((S.steps & 0xfffff) == 0 && CellDeadline && time(nullptr) > CellDeadline)) { alarm(S, "BUDGET", nullptr, S.steps > CFG.maxSteps ? "step budget exceeded" : "wall-clock budget of the cell exceeded"); S.aborted = true; S.abortMsg = "budget"; done.push_back(std::move(S)); return; }
       Frame &F = S.stack.back();
       Instruction *I = &*F.it;
       if (isa<DbgInfoIntrinsic>(I)) { ++F.it; continue; }
